@@ -100,7 +100,7 @@ PROPS = {
   "level": "exploration",
   "technique": "structured mutation of valid OVMB / OVM-ASCII files (numeric fields := boundary values, payload vs declared length, chunk/line drop/duplicate/splice, byte edits) read under ASan+UBSan+range-checked vectors with a capped operator new; validity walk on every success; driver watchdog for termination",
   "parts": [
-    {"name": "rel", "flavor": "asan-rel", "monitor": "C07", "cases": {"quick": 200, "thorough": 6000}, "case_timeout": 600},
+    {"name": "rel", "flavor": "asan-rel", "monitor": "C07", "cases": {"quick": 400, "thorough": 6000}, "case_timeout": 180},
   ],
   "nontrivial": {"fn": lambda js: cnt(js, "c07.inputs") >= 50 and (cnt(js, "c07.ovmb.rejected") + cnt(js, "c07.ascii.rejected")) >= 5,
                  "text": "case = one generated valid file (OVMB and ASCII alternate; poly/tet/hex; persistent properties of random codecs) and 100 inputs derived from it: the file itself, empty input, random bytes, two files concatenated, then 1-3 stacked mutations each - OVMB: every numeric field of file header / chunk header / VERT, TOPO, PROP sub-headers / DIRP bytes / payload words replaced by one of 22 boundary values (0,1,..,255,256,65535,65536,2^31-1,2^31,2^32-1,2^32,2^63-1,2^63,2^64-1) or a small number; payload shortened/extended against its declared length; length fields adjusted; chunks dropped, duplicated, spliced from another file; bit flips, inserts, deletes, truncation. ASCII: lines/tokens dropped, repeated, replaced by non-numeric text, negative numbers, huge counts, section names, property headers of other kinds/types. Each input is read with random topology_check / incidence options into a random mesh type. Any sanitizer report, libstdc++ assertion, abort, non-standard exception or watchdog timeout is a violation; on success every stored handle must designate an existing entity and every tracked property must have one element per entity (+cache shape when incidences were requested). non-trivial = >=50 inputs with >=5 rejections; distinct by operation digest"},
